@@ -30,7 +30,8 @@ CONSTANTS MaxLen,       \* generation: bound on the history length
 
 Plugins == {"python", "rust", "dotnet", "testdata"}
 Models  == {"A", "B", "C"}          \* C is a LIST of two model files (the committed model and an extension)
-Seeds   == {"0", "1", "r", "O"}     \* the process: PYTHONHASHSEED 0 / 1 / random, or python -O with a random seed
+\* the process: PYTHONHASHSEED 0 / 1 / random, python -O with a random seed, or a process whose locale encoding is ASCII
+Seeds   == {"0", "1", "r", "O", "L"}
 \* plugins that own a SET of files (glob-deleted before writing); the others own fixed paths
 SetOwners == {"dotnet", "testdata"}
 
